@@ -227,7 +227,8 @@ def run(run):
     try:
         thorough = run.tier == 'thorough'
         maxn = 4 if thorough else 3
-        consts = {'MaxSubsets': str(maxn), 'MaxReq': '4' if thorough else '3'}
+        big = (11, 17) if thorough else (11,)
+        consts = {'MaxSubsets': str(maxn), 'MaxReq': '4' if thorough else '3', 'BigCounts': '{' + ', '.join(map(str, big)) + '}'}
         text = tlc.mc_module('MC_Subset', ['Subset'], consts)
         res = tlc.run(wd, 'MC_Subset', tlc.mc_cfg(consts, invariants=['CountIsDistinct', 'IthIsIthSmallest', 'OutOfRangeRefused', 'Emit']), text,
                       coverage=False, lazy_emitted=True)
@@ -267,6 +268,22 @@ def run(run):
                 for b in (behs[r % len(behs)], behs[(r + len(behs) // 2) % len(behs)]):
                     jobs.append((b, rs, 'command'))
                 cli_pairs += [(behs[(r + k) % len(behs)], rs[(r * 3 + k * 5) % len(rs)]) for k in range(3 if thorough else 1)]
+        # messages with many subsets (Subset.BigCounts): requests out of order and with repeats over indices on both sides of 8
+        # and of the middle; the template has a widened numeric, a string and a code table next to ordinary numerics, so that the
+        # value classes (periods 5, 6 and 7 over the subsets) tell any two of the subsets apart
+        big_templates = [[201130, 12001, 201000, 1015, 2001, 11003, 1001], [102002, 11003, 8042, 1008, 201129, 10004, 201000]]
+        for n in big:
+            res = fm94.gen_run(wd, 'MC_c10_big%d' % n, big_templates, subset_counts=(n,), seeds=((r + n) % 5,), slack=0,
+                               editions=((4, 3, 2)[(n + seed()) % 3],), identv=n % 2)
+            run.add_tlc(res, 'FM94 produce, %d subsets' % n)
+            behs = [b for b in res.iter_emitted() if not b['err']]
+            rs = reqs[n]
+            for b in behs:
+                for i in range(0, len(rs), 200):
+                    jobs.append((b, rs[i:i + 200]))
+            if behs:
+                jobs.append((behs[r % len(behs)], rs[r % 3::3], 'command'))
+            run.notes['requests_on_%d_subsets' % n] = len(rs)
         with mp.get_context('fork').Pool(14, initializer=fm94._init_worker) as pool:
             outs = pool.map(_work, jobs)
         for job, out in zip(jobs, outs):
